@@ -66,6 +66,7 @@ class VF(object):
             if _isinstance(x, SymBool):
                 import z3
                 return SymInt(z3.If(x.e, z3.IntVal(1), z3.IntVal(0)))
+            if _isinstance(x, SymStr): return x.vf_int()
             raise Unsupported('int(%s)' % _type(x).__name__)
         if f is float:
             if _isinstance(x, SymFloat): return x
@@ -82,6 +83,16 @@ class VF(object):
             return f(*a, **k)
         # bool abs min max divmod hash: native dispatch through the proxies' dunders
         return f(*a, **k)
+
+    _wrapped = {}
+
+    @staticmethod
+    def wrapped(f):
+        """R2 for a builtin passed to map(): a function object that dispatches like a direct call would"""
+        w = VF._wrapped.get(f)
+        if w is None:
+            w = VF._wrapped[f] = (lambda *a, **k: VF.builtin(f, *a, **k))
+        return w
 
     @staticmethod
     def mod(l, r):
@@ -253,6 +264,9 @@ class Rewriter(ast.NodeTransformer):
     def visit_Call(self, node):
         self.generic_visit(node)
         f = node.func
+        if isinstance(f, ast.Name) and f.id == 'map' and node.args and isinstance(node.args[0], ast.Name) and node.args[0].id in BUILTINS:
+            node.args[0] = ast.copy_location(_vf('wrapped', node.args[0]), node.args[0])
+            return node
         if isinstance(f, ast.Name) and f.id in BUILTINS and not any(isinstance(a, ast.Starred) for a in node.args):
             return ast.copy_location(
                 ast.Call(ast.Attribute(ast.Name('__vf__', ast.Load()), 'builtin', ast.Load()), [f] + node.args, node.keywords), node)
